@@ -71,6 +71,9 @@ def install_state_hook(it, ctx, shape, sfeat, default, body):
     holder = {}
 
     def setup(env, c, iterable):
+        for nm in ("current_merged", "feature_children", "last_id"):
+            if nm not in env.vars:
+                raise Undecided("merge() no longer keeps its loop state in the local `%s` (the invariant of props/C16_fold.py is stated over these names)" % nm)
         st = _mk_state(c, shape, sfeat, default)
         env.store("current_merged", st["cm"])
         env.store("feature_children", st["kids"])
